@@ -132,7 +132,7 @@ PROPS["C02"] = dict(
           "Before each call the std::basic_string model predicts out_of_range / length_error / success; the exception type must match and after an exception every string must equal its model (unchanged). "
           "Canary-filled, ASan-poisoned red zones surround every object; pointer and range arguments live in exact-size heap blocks. "
           "Non-trivial: at least two state-changing steps (a rejected call counts). Distinct: distinct run digests."),
-    probes=["length_error_observed", "out_of_range_observed", "exception_at_len_N", "exception_at_len_N-1", "op_at_len_N"],
+    probes=["length_error_observed", "out_of_range_observed", "exception_at_len_N", "exception_at_len_N-1", "op_at_len_N", "huge_absolute_count"],
     components=_FS_COMPONENTS, assumptions=_FS_ASSUME + ["when a bad position and an over-long result apply to the same call either exception is accepted"],
 )
 PROPS["C14"] = dict(
